@@ -8,6 +8,9 @@ Auths == {{p} : p \in People} \cup {{}}
 Acts(s) ==
     {[name |-> n, receiver |-> rc, token |-> "sac", amt |-> 1, auth |-> au] :
         n \in {"CollectFees", "Refund"}, rc \in {"carol", "bob"}, au \in Auths}
+    \* aliased beneficiary: the collector itself, the owner, or the service's own address
+    \cup {[name |-> n, receiver |-> rc, token |-> "sac", amt |-> 1, auth |-> au] :
+        n \in {"CollectFees", "Refund"}, rc \in {"col0", "owner0", "gs"}, au \in {{}, {"col0"}, {"owner0"}, {"mallory"}}}
     \cup {[name |-> "TransferOwnership", new |-> n, auth |-> au] : n \in {"owner0", "bob", "col0"}, au \in Auths}
 InitState == [bal |-> [t \in Tokens |-> [x \in Accts |-> IF x = "gs" THEN 3 ELSE 0]], collector |-> "col0", owner |-> "owner0"]
 Init == st = InitState
